@@ -5,6 +5,7 @@ import Emg3dVerif.Drv.C03
 import Emg3dVerif.Drv.C04
 import Emg3dVerif.Drv.C01
 import Emg3dVerif.Drv.C13
+import Emg3dVerif.Drv.C12
 open Emg
 
 def handle (ws : List String) : String :=
@@ -19,6 +20,7 @@ def handle (ws : List String) : String :=
       else if w == "restrict" || w == "prolong" || w == "rweights" || w == "rparam" || w == "cgrid" then Drv04.handle ws
       else if w == "solve" then Drv01.handle ws
       else if w == "survey" || w == "misfit" then Drv13.handle ws
+      else if w == "sim" then Drv12.handle ws
       else none
     r.getD "bad-op"
 
